@@ -327,6 +327,19 @@ func (st *State) insertRows(t *entTable, items *SliceV) {
 		}
 	}
 	st.heapUpdateQ(tblLive(t.Name), ArrS(SInt, SBool), false, func(x, old *Term) *Term { return Or(old, isNew(x)) })
+	// bridge for the solver, triggered by a builder element: the row created for the i-th builder
+	{
+		var facts []*Term
+		facts = append(facts, Eq(Select(inv, ni), i), st.rowLive(st.heap, t, ni), Not(st.rowLive(h, t, ni)))
+		for _, c := range t.Cols {
+			if c.Name == "id" {
+				continue
+			}
+			v, set := st.cbVal(h, t, cbOf(i), c.Name)
+			facts = append(facts, Implies(set, Eq(st.colGet(st.heap, t, c.Name, ni), v)))
+		}
+		st.assume(ForallAlt([]*Term{i}, Implies(inR(i), And(facts...)), [][]*Term{{cbOf(i)}, {ni}}))
+	}
 	st.ghostObj["lastbulk"] = &bulkInfo{nid: nid, inv: inv, n: n}
 	_ = fmt.Sprint
 }
